@@ -482,3 +482,94 @@ _obligations_c14c = obligations
 
 def obligations(ctx, cfg):
     return _obligations_c14c(ctx, cfg) + [PushStopsOnDelete(ctx)]
+
+
+class PushRegistration(Obligation):
+    """the registration lifecycle, from the real constructor: a subscription is in the push registry exactly from its start (when it has an
+    endpoint) until its deletion has been processed"""
+    id = 'C14.h-registration-lifecycle'
+    tier = 'T3'
+    desc = ('SubscriptionActor::start run for real on a registry holding one other entry: afterwards the subscription is registered iff it has a push config '
+            '(with that config); the spawned actor task is then fed Delete through its mailbox: afterwards the registry no longer lists it; the other entry is '
+            'untouched throughout')
+    bounds = {'registry': 'one other entry (present or not)', 'history': 'start, Delete', 'select! start index': 0}
+    unroll = 6
+
+    def __init__(self, ctx):
+        install_tokens(ctx)
+
+    def body(self, ip, p):
+        ctx = ip.ctx
+        from models_async import ReceiverM, OneshotTx, poll_future
+        ctx.on_enqueue = default_reply
+        p.timers_never_fire = True
+        p.signals_never_fire = True
+        p.select_in_order = True
+        name, other = sym_name(ctx, p, 'SubscriptionName', 'own'), sym_name(ctx, p, 'SubscriptionName', 'other')
+        p.assume(z3.Not(eq_val(name, other)))
+        secs = p.fresh('ack_deadline_s')
+        p.assume(z3.And(secs >= 10, secs <= 600))
+        has_push = p.choose(2, 'push config Some/None') == 0
+        ep = p.fresh('endpoint')
+        cfgv = mk(ctx, 'PushConfig', 'subscriptions/subscription', endpoint=StrTok(ep), oidc_token=Enum('Option', 0, {}), attributes=Enum('Option', 0, {}))
+        info = mk(ctx, 'SubscriptionInfo', name=name, ack_deadline=S(secs * NS, 'Duration'),
+                  push_config=Enum('Option', 1, {1: (cfgv,)}) if has_push else Enum('Option', 0, {}))
+        observer = run_to_end(ip.call_fn(ctx.fn('SubscriptionObserver', 'new'), []))
+        mstate = Cell(mk_opt(ctx, 'State', 'subscriptions/subscription_manager', subscriptions=MapM([]), next_id=S(p.fresh('s_next'), 'u32')), 'smgr-state')
+        delegate = mk(ctx, 'SubscriptionManagerDelegate', state=ArcCell(Cell(LockM('subscription_manager.state', mstate))))
+        u2 = p.fresh('other_registered', 'bool')
+        pstate = Cell(mk_single(ctx, 'PushSubscriptionsRegistryState', MapM([(u2, other, mk(ctx, 'PushConfig', 'subscriptions/subscription', endpoint=StrTok(p.fresh('other_endpoint')), oidc_token=Enum('Option', 0, {}), attributes=Enum('Option', 0, {})))])), 'pstate')
+        reg = mk(ctx, 'PushSubscriptionsRegistry', state=ArcCell(Cell(LockM('push_registry.state', pstate))))
+        n0 = len(p.log)
+        run_to_end(ip.call_fn(ctx.fn('SubscriptionActor', 'start'),
+                              [S(p.fresh('iid'), 'u32'), info, ArcTok(p.fresh('topic_tok'), 'Topic'), ArcCell(Cell(observer, 'observer')), reg, delegate]))
+        mp = fld_single(ctx, pstate.v, 'PushSubscriptionsRegistryState')
+        after_start = (mp.found(name), mp.found(other), mp)
+        spawned = [e for e in p.log[n0:] if e[0] == 'spawn']
+        if len(spawned) != 1:
+            raise Unsupported('SubscriptionActor::start spawned %d tasks' % len(spawned))
+        task = spawned[0][1]
+        ev = ctx.src.enum_variants('SubscriptionRequest')
+        idx = {n: i for i, (n, _) in enumerate(ev)}
+        p.counter += 1
+        tx = OneshotTx(p.counter)
+        rx = ReceiverM([Enum('SubscriptionRequest', idx['Delete'], {idx['Delete']: (tx,)})])
+        ups = list(task.upvars) if hasattr(task, 'upvars') else None
+        if ups is None:
+            raise Unsupported('spawned task is not a coroutine value')
+        k = [i for i, u in enumerate(ups) if isinstance(u, Opaque) and u.tag == 'mpsc.Receiver']
+        if len(k) != 1:
+            raise Unsupported('the actor task does not own exactly one mailbox')
+        ups[k[0]] = rx
+        cell = Cell(Enum(task.name, task.discr, task.payload, ups), 'actor-task')
+        for _ in range(4):
+            r = run_to_end(poll_future(ip, Loc(cell)))
+            if r.discr == 0 or getattr(p, 'sent', {}).get(tx.cid) is not None:
+                break
+        mp2 = fld_single(ctx, pstate.v, 'PushSubscriptionsRegistryState')
+        return {'has_push': has_push, 'after_start': after_start, 'answer': getattr(p, 'sent', {}).get(tx.cid), 'after_delete': (mp2.found(name), mp2.found(other)),
+                'u2': u2, 'ep': ep, 'name': name}
+
+    def post(self, ip, p, res):
+        ctx = ip.ctx
+        own, oth, mp = res['after_start']
+        out = [Claim('after start: registered iff the subscription has a push config', own == z3.BoolVal(res['has_push'])),
+               Claim('after start: the other entry is untouched', oth == res['u2'])]
+        if res['has_push']:
+            got = mp.lookup(res['name'])
+            if isinstance(got, Agg):
+                out.append(Claim('registered with the subscription\'s own endpoint', fld(ctx, got, 'PushConfig', 'endpoint', 'subscriptions/subscription').tok == res['ep']))
+        ans = res['answer']
+        out.append(Claim('the deletion was answered Ok', ans is not None and ans.discr == 0))
+        own2, oth2 = res['after_delete']
+        out.append(Claim('after the deletion: not registered', z3.Not(own2)))
+        out.append(Claim('after the deletion: the other entry is untouched', oth2 == res['u2']))
+        out.append(Cover('a push subscription'), ) if res['has_push'] else out.append(Cover('a pull subscription'))
+        return out
+
+
+_obligations_c14h = obligations
+
+
+def obligations(ctx, cfg):
+    return _obligations_c14h(ctx, cfg) + [PushRegistration(ctx)]
